@@ -35,13 +35,26 @@ Definition hist_of (iv : inv) (u : node) : result history :=
   | None => match iv_default iv with Some h => Ok h | None => Err KeyErr end
   end.
 
-(* __init__: with possible_statuses=None the code computes set(node_history[node])
-   of a tuple of two lists, which is a TypeError (unhashable list) as soon as there
-   is one node in node_history; with no node it is the empty list *)
-Definition possible_statuses (iv : inv) : result (list N) :=
+(* __init__: with possible_statuses=None the statuses occurring in node_history
+     ps = set(); for node in node_history: ps = ps.union(set(node_history[node][1]))
+     possible_statuses = list(ps)
+   The order of list(set) is unspecified: it is modelled as order of first appearance
+   and nothing stated about the object depends on it (summary is a dict keyed by
+   status; the theorems speak about each status separately).  Only the keys present
+   in node_history count: the default of a defaultdict does not. *)
+Fixpoint dedupN (l seen : list N) : list N :=
+  match l with
+  | [] => []
+  | s :: t => if mem s seen then dedupN t seen else s :: dedupN t (s :: seen)
+  end.
+
+Definition statuses_in (hs : list (node * history)) : list N :=
+  dedupN (flat_map (fun nh => map snd (snd nh)) hs) [].
+
+Definition possible_statuses (iv : inv) : list N :=
   match iv_ps iv with
-  | Some ps => Ok ps
-  | None => match iv_hist iv with [] => Ok [] | _ => Err TypeErr end
+  | Some ps => ps
+  | None => statuses_in (iv_hist iv)
   end.
 
 (* ---------------- summary ---------------- *)
@@ -113,9 +126,9 @@ Definition rows_of (es : list dent) (ps : list N) : result (list row) :=
 
 (* summary(nodelist): None = all nodes of G *)
 Definition summary (iv : inv) (nodelist : option (list node)) : result (list row) :=
-  rbind (possible_statuses iv) (fun ps =>
+  let ps := possible_statuses iv in
   let nl := match nodelist with None => iv_nodes iv | Some l => l end in
-  rbind (all_entries iv ps nl) (fun es => rows_of es ps)).
+  rbind (all_entries iv ps nl) (fun es => rows_of es ps).
 
 (* t(), S(), I(), R(): projections of the summary of all nodes *)
 Definition iv_t (iv : inv) : result (list Q) := rbind (summary iv None) (fun rows => Ok (map fst rows)).
@@ -128,11 +141,10 @@ Fixpoint index_of (s : N) (ps : list N) : option nat :=
 
 Definition column (iv : inv) (s : N) : result (list Z) :=
   rbind (summary iv None) (fun rows =>
-  rbind (possible_statuses iv) (fun ps =>
-  match index_of s ps with
+  match index_of s (possible_statuses iv) with
   | None => Err EoNError                   (* "'S' is not a possible status" *)
   | Some i => Ok (map (fun r => nth i (snd r) 0%Z) rows)
-  end)).
+  end).
 Definition iv_S (iv : inv) := column iv stS.
 Definition iv_I (iv : inv) := column iv stI.
 Definition iv_R (iv : inv) := column iv stR.
@@ -275,16 +287,12 @@ Definition first_diff (a b : list row) : option Q :=
 
 (* arrays: the rows (t, [count of ps_0; count of ps_1; ...]) returned without return_full_data *)
 Definition consistent (iv : inv) (arrays : list row) (tmin : Q) (mv : list (N * N)) : verdict :=
-  match possible_statuses iv with
-  | Err e => VErr e
-  | Ok ps =>
-    match first_bad_hist iv ps mv tmin (iv_nodes iv) with
-    | Some u => VBadHistory u
-    | None =>
-      match summary iv None with
-      | Err e => VErr e
-      | Ok rows => match first_diff rows arrays with Some t => VBadSummary t | None => VOk end
-      end
+  match first_bad_hist iv (possible_statuses iv) mv tmin (iv_nodes iv) with
+  | Some u => VBadHistory u
+  | None =>
+    match summary iv None with
+    | Err e => VErr e
+    | Ok rows => match first_diff rows arrays with Some t => VBadSummary t | None => VOk end
     end
   end.
 
